@@ -174,6 +174,20 @@ check('C18', 'xls',
       'assumptions; distinct column titles.',
       'DESIGN.md section 4, C18')
 
+ENGINES['ppobj'] = ('specs/ppobj', ['C11'], 'PPJson.tla (printer acceptor, pushdown machine over lexical items), '
+                    'PPJsonCases.tla (shape builder); driver harness/drivers/c11.py')
+check('C11', 'ppobj',
+      'TLA+ printer acceptor (pushdown machine, one action per lexical item) judges the real PrettyPrinter output for '
+      'values whose rendered lengths sweep the layout decisions; value shapes come from a TLC builder',
+      'Flat dicts with one-line length 150..260 at several nesting offsets, flat lists with element lengths and counts '
+      'around the 200 / 150-per-line decisions (incl. repeated values), special scalars and empty containers, and all '
+      'TLC-enumerated shapes of depth<=2 width<=2 scaled by padding, each in JSON and Python mode, whole and line by '
+      'line.  The output is lexed by the driver and accepted by TLC only if every element appears exactly once, in '
+      'order, dict keys sorted by code point, single commas - hence reads back as the same data (json.loads / '
+      'literal_eval agreement is recorded as a cross-check).',
+      'Trusted: TLC, the lexer in the driver. Layout thresholds themselves are not part of the property.',
+      'DESIGN.md section 4, C11')
+
 ALL = ['C%02d' % i for i in range(1, 21)]
 
 
